@@ -26,9 +26,10 @@ import (
 )
 
 type fault struct {
-	After int    `json:"after_judged_message"` // injected after this many judged messages (0 = before the first)
-	Kind  string `json:"kind"`                 // close | rst | down | midline
-	Down  int    `json:"down_handovers"`       // judged messages handed over while the sink is unreachable
+	After   int    `json:"after_judged_message"` // injected after this many judged messages (0 = before the first)
+	Kind    string `json:"kind"`                 // close | rst | down | midline
+	Down    int    `json:"down_handovers"`       // judged messages handed over while the sink is unreachable
+	PauseMs int    `json:"pause_ms,omitempty"`   // stall only: the sink sleeps this long and reads on instead of resetting
 }
 
 type scenario struct {
@@ -346,6 +347,7 @@ func genMsg(g *mon.RNG, scn, k int, content string, maxLen int) []byte {
 
 type result struct {
 	Stalls, StallsThatBlockedAWrite int
+	Pauses                          int
 	Kind, What                      string
 	Inconcl                         string
 	Handed                          int
@@ -507,8 +509,16 @@ func runScenario(sc scenario, dir string) (res result, wit witness) {
 						blocked = true // the producer sits in a write (or the hand-over before it): buffers are full
 					}
 				}
-				s.closeCurrent(true)
-				s.setStall(false)
+				if f.PauseMs > 0 {
+					// a pause, not a failure: the sink keeps the connection, sleeps, and reads on. Nothing broke, so
+					// whatever the producer did while it could not write (time out, retry) must not show in the stream
+					time.Sleep(time.Duration(f.PauseMs) * time.Millisecond)
+					s.setStall(false)
+					res.Pauses++
+				} else {
+					s.closeCurrent(true)
+					s.setStall(false)
+				}
 				if pending != nil {
 					if ok := <-pending; !ok {
 						res.Inconcl = "producer never came back after the stalled connection was reset"
@@ -711,6 +721,10 @@ func scenarios(seed int64, thorough bool) []scenario {
 			}
 		}
 	}
+	// long pauses of a sink that stays connected (longer than any plausible write timeout)
+	for _, r := range []int{0, 2} {
+		add(scenario{Proto: "tcp", Retry: r, N: 5 + 25, Content: "plain", Faults: []fault{{After: 5, Kind: "stall", PauseMs: 6500}}})
+	}
 	for _, proto := range []string{"tcp", "udp"} {
 		for _, at := range pos {
 			for _, r := range retries {
@@ -839,7 +853,7 @@ func main() {
 	run.Set("stalls_injected", stalls)
 	run.Set("stalls_in_which_a_producer_write_blocked_mid_message", stallsBlocked)
 	run.Set("backends_not_reached", []string{"kafka (sarama)", "kafka (segmentio)", "nsq: need brokers that do not exist in this sandbox"})
-	run.SetRule("real producer.NewProducer('rawSocket') + config file + Run() against an in-process sink. Fault enumeration: {graceful close, RST, mid-line reset, stall (sink stops reading until a producer write blocks mid-message, then RST), listener+connection down} × fault position {before first, after message 1,2,5,17} × downtime {0,1,5,50 hand-overs} × retry-max {0,1,2,5}, tcp and udp, plus seeded sequences of 2-5 faults; contents with every % verb, %%, trailing %, binary octets, up to 256 KiB. Oracle over the sink's byte streams (connections in accept order): every complete line is byte-identical to a handed-over message plus newline, no duplicates, no inversions, every message handed over while the sink had been reachable for more than 4 messages is present, delivery resumes after every fault. distinct = scenario descriptor")
+	run.SetRule("real producer.NewProducer('rawSocket') + config file + Run() against an in-process sink. Fault enumeration: {graceful close, RST, mid-line reset, stall (sink stops reading until a producer write blocks mid-message, then RST), pause (the same, but the sink sleeps 6.5 s and then reads on over the same connection), listener+connection down} × fault position {before first, after message 1,2,5,17} × downtime {0,1,5,50 hand-overs} × retry-max {0,1,2,5}, tcp and udp, plus seeded sequences of 2-5 faults; contents with every % verb, %%, trailing %, binary octets, up to 256 KiB. Oracle over the sink's byte streams (connections in accept order): every complete line is byte-identical to a handed-over message plus newline, no duplicates, no inversions, every message handed over while the sink had been reachable for more than 4 messages is present, delivery resumes after every fault. distinct = scenario descriptor")
 	run.Assume("bounded gap = at most 4 judged messages after the sink is reachable again (derivation in DESIGN.md C14)")
 	run.Assume("loopback TCP delivers what the kernel accepted within 20 s (watchdog for 'never arrived')")
 	run.Finish()
